@@ -323,6 +323,7 @@ func Run(opts *Options) (int, error) {
 		reading = true
 		chunkList.Clear()
 		itemIndex = 0
+		lineAnsiState = nil
 		inputRevision.bumpMajor()
 		header = make([]string, 0, opts.HeaderLines)
 		readyChan := make(chan bool)
